@@ -22,7 +22,13 @@ type CLICase struct {
 	// After: an older file (version 0) is applied before; together with the edit a file whose version lies between the two (05) is added, and the second run uses
 	// --exec-order non-linear: the partially applied file is then not the first file of that run.
 	After bool `json:"after,omitempty"`
+	// Trig: the second statement of the file is a CREATE TRIGGER ... BEGIN ...; ...; END block (one statement
+	// for the SQLite scanner). Mode2: the tx-mode of the run after the edit ("" = none, like the first run).
+	Trig  bool   `json:"trigger,omitempty"`
+	Mode2 string `json:"mode2,omitempty"`
 }
+
+const cliTrigger = "CREATE TRIGGER trg AFTER INSERT ON journal BEGIN SELECT 1; SELECT 2; END"
 
 func cliStmt(i int) string {
 	if i == 0 {
@@ -45,6 +51,9 @@ func evalCLI(c CLICase) (problems []string) {
 	var orig []string
 	for i := 0; i < c.N; i++ {
 		orig = append(orig, cliStmt(i))
+	}
+	if c.Trig {
+		orig[1] = cliTrigger
 	}
 	broken := append([]string(nil), orig...)
 	broken[c.K] = cliFailing
@@ -188,7 +197,12 @@ func evalCLI(c CLICase) (problems []string) {
 			bad("`migrate apply --dry-run` lists a statement that is already applied: %s", dry)
 		}
 	}
-	r2 := apply()
+	var r2 clih.Result
+	if c.Mode2 != "" {
+		r2 = w.Run(nil, "migrate", "apply", "--dir", dirURL, "--url", dbURL, "--tx-mode", c.Mode2, "--lock-timeout", "1ms")
+	} else {
+		r2 = apply()
+	}
 	after, _ := w.Query("db.sqlite", "SELECT sid FROM journal ORDER BY rowid")
 	revsAfter, _ := w.Query("db.sqlite", rawRevs)
 	if strings.Contains(r2.Stderr, "panic:") {
@@ -248,6 +262,16 @@ func cliCases() []CLICase {
 			for _, set := range []bool{false, true} {
 				for _, e := range []string{"none", "repair", "tail", "prefix", "truncate", "insert_front", "grow_fail_again"} {
 					cs = append(cs, CLICase{N: n, K: k, Set: set, Edit: e})
+					if !set && (e == "repair" || e == "tail" || e == "prefix") {
+						for _, m2 := range []string{"all", "file"} {
+							cs = append(cs, CLICase{N: n, K: k, Edit: e, Mode2: m2})
+						}
+						if k >= 2 {
+							for _, m2 := range []string{"", "all", "file"} {
+								cs = append(cs, CLICase{N: n, K: k, Edit: e, Trig: true, Mode2: m2})
+							}
+						}
+					}
 					if !set && (e == "prefix" || e == "truncate" || e == "insert_front") && !(e == "truncate" && k == 1) {
 						cs = append(cs, CLICase{N: n, K: k, Edit: e, After: true})
 					}
@@ -274,7 +298,7 @@ func runCLI(r *report.Run) int {
 		c := cs[i]
 		r.Case(fmt.Sprintf("cli|%+v", c), c.Edit != "none")
 		if len(res[i]) > 0 {
-			r.Violate("", fmt.Sprintf("CLI n=%d k=%d set=%v edit=%s after=%v: %s", c.N, c.K, c.Set, c.Edit, c.After, strings.Join(res[i], " | ")), map[string]any{"cli_case": c})
+			r.Violate("", fmt.Sprintf("CLI n=%d k=%d set=%v edit=%s after=%v trigger=%v mode2=%q: %s", c.N, c.K, c.Set, c.Edit, c.After, c.Trig, c.Mode2, strings.Join(res[i], " | ")), map[string]any{"cli_case": c})
 		}
 	}
 	return len(cs)
